@@ -43,29 +43,13 @@ theorem lockOf_insert_ne (st : St) (p q : Nat) (l : ALock) (h : q ≠ p) :
 
 /-! ### counted operations -/
 
-def Op.isUnlock (p : Nat) : Op → Bool
-  | .unlock q => q == p
-  | _ => false
-
 /-- `unlock p` operations of a continuation -/
 def ulc (p : Nat) (ops : List Op) : Nat := (ops.filter (Op.isUnlock p)).length
 
 /-- `lockWait` operations for workspace `p` -/
 def lwc (P : Project) (p : Nat) (ops : List Op) : Nat := (ops.filter (Op.isLockWait P p)).length
 
-theorem unlocks_eq (p : Nat) (x : Task) : x.unlocks p = ulc p x.ops := by
-  unfold Task.unlocks ulc
-  congr 1
-  apply List.filter_congr
-  intro o _
-  cases o <;> simp [Op.isUnlock]
-  rename_i q _
-  by_cases h : q = p
-  · subst h; simp
-  · have : (Op.unlock q == Op.unlock p) = false := by
-      apply beq_false_of_ne
-      intro hc; injection hc with hc; exact h hc
-    simp [this, h]
+theorem unlocks_eq (p : Nat) (x : Task) : x.unlocks p = ulc p x.ops := rfl
 
 theorem waitingLock_eq (P : Project) (p : Nat) (x : Task) : x.waitingLock P p = lwc P p x.ops := rfl
 
@@ -124,18 +108,6 @@ theorem lwc_lkFree (P : Project) (p : Nat) {body : List Op} (h : ∀ o ∈ body,
     simp [this, ih (fun o' ho' => h o' (by simp [ho']))]
 
 /-! ### scripts only under the workspace lock -/
-
-def Op.section? (P : Project) : Op → Option Nat
-  | .run s => some (P.info s).path
-  | .runWait s _ => some (P.info s).path
-  | .underLock s _ => some (P.info s).path
-  | .setRun s _ => some (P.info s).path
-  | _ => none
-
-/-- every operation of a lock section is followed by the `unlock` of its workspace -/
-def underLockOK (P : Project) : List Op → Bool
-  | [] => true
-  | o :: r => (match o.section? P with | some p => r.contains (.unlock p) | none => true) && underLockOK P r
 
 theorem underLockOK_tail {P : Project} {o : Op} {r : List Op} (h : underLockOK P (o :: r) = true) : underLockOK P r = true := by
   simp only [underLockOK, Bool.and_eq_true] at h; exact h.2
@@ -700,7 +672,7 @@ theorem LockInv.step {P : Project} {cfg : Cfg} {st st' : St} {c : Choice}
 theorem LockInv.init (P : Project) (cfg : Cfg) (r0 : Runners) : LockInv P (init cfg r0) := by
   refine ⟨fun p => ?_, ?_, ?_⟩
   · have hH : lockHolders p (Sched.init cfg r0) = 0 := by
-      simp [lockHolders, tsum, Sched.init, Task.unlocks]
+      simp [lockHolders, tsum, Sched.init, Task.unlocks, Op.isUnlock]
     have hW : tsum (Task.waitingLock P p) (Sched.init cfg r0) = 0 := by
       simp [tsum, Sched.init, Task.waitingLock, Op.isLockWait]
     have hL : (Sched.init cfg r0).lockOf p = ALock.init := by simp [St.lockOf, Sched.init, lookup]
